@@ -39,6 +39,10 @@ def IsAR (e : Ev) : Prop := e.kind = .aload ∨ e.kind = .armw
 /-- plain (non-atomic) access -/
 def IsPlain (e : Ev) : Prop := e.kind = .pread ∨ e.kind = .pwrite
 
+instance (e : Ev) : Decidable (IsAW e) := by unfold IsAW; infer_instance
+instance (e : Ev) : Decidable (IsAR e) := by unfold IsAR; infer_instance
+instance (e : Ev) : Decidable (IsPlain e) := by unfold IsPlain; infer_instance
+
 /-- program order: earlier event of the same thread -/
 def po (tr : List Ev) (i j : Nat) : Prop :=
   i < j ∧ ∃ a b, tr[i]? = some a ∧ tr[j]? = some b ∧ a.tid = b.tid
